@@ -36,4 +36,11 @@ PROPS = {
         "assumptions": ["clock is monotone"],
         "level_note": "store-level clauses proved for all histories (refinement to a 3-function spec + exactness over histories); which address is stored and the family filter of the reply are handler-level (C05 model)",
     },
+    "C10": {
+        "engines": [{"name": "table", "quick": 40, "thorough": 600, "oracle_tag": "C10",
+                     "op_filter": ["n", "contacts", "counts", "local", "remote"]}],
+        "constants": ["MAX_LAST_SEEN_MINS", "MAX_REFRESH_REQUESTS", "RECENTLY_REQUESTED_SECS"],
+        "trusted": COMMON_TRUST + ["clock >= 15 min (the implementation's one-week Instant offset); generated times start at 1000 s"],
+        "assumptions": ["clock is monotone", "events reach the node the way the routing table applies them (update / find_node_mut on pingable nodes)"],
+    },
 }
